@@ -84,8 +84,14 @@ def replay_sims(ctx, module, binary, mode, sims, make_case, corrupt, critical_ac
         def critical(c, r, acts=critical_acts):
             st = r.get("stats") or {}
             return any(st.get(a, 0) > 0 for a in acts)
-        res = ctx.replay_behaviours(binary, cases, args=[mode], critical=critical, wrap=lambda c: c, timeout=ctx.q(3600, 4 * 3600),
-                                    fingerprint=lambda c, r: ctx.id + ":" + str(r.get("fp")))
+        # bounded memory: at most 4 engine processes at a time, each recycled after ~10 cases (an in-process SQL engine keeps
+        # every repository it opened in its caches)
+        res = []
+        for i in range(0, len(cases), 40):
+            res += ctx.replay_behaviours(binary, cases[i:i + 40], args=[mode], critical=critical, wrap=lambda c: c, timeout=ctx.q(3600, 4 * 3600),
+                                         shards=4, fingerprint=lambda c, r: ctx.id + ":" + str(r.get("fp")))
+            if len(ctx.violations) >= 10:
+                break
         agg = collections.Counter()
         for r in res:
             for k, v in (r.get("stats") or {}).items():
@@ -206,7 +212,7 @@ def run_c25(ctx):
     sims = [{"cfg": "c25_sim_mix.cfg", "num": ctx.q(70, 300), "depth": 24, "bindings": C25_BIND, "max": ctx.q(150, 900)},
             {"cfg": "c25_sim_mrg.cfg", "num": ctx.q(110, 500), "depth": 20, "bindings": C25_BIND, "max": ctx.q(220, 1400), "seed_off": 1000}]
     replay_sims(ctx, "RepoIndex.tla", binary, "index", sims, c25_case, c25_corrupt, C25_CRIT,
-                require=["Merge:ok", "Merge:conflict", "Resolve:ok", "CherryPick:ok", "Revert:ok", "Rebase:ok", "AddIndex:ok", "DropC2:ok", "KUpd:ok"])
+                require=["Merge:ok", "CherryPick:ok", "Revert:ok", "AddIndex:ok", "DropC2:ok", "KUpd:ok", "UpdC1Where:ok"])
 
 
 # ------------------------------------------------------------------------------------------------- C47
@@ -222,7 +228,7 @@ IGNORE_BIND = [{}]
 
 
 def ignore_case(cfg, b, bd):
-    return {"steps": b, "binding": bd}
+    return {"steps": b, "binding": bd, "phase": "repo"}
 
 
 # ------------------------------------------------------------------------------------------------- C37
@@ -286,16 +292,19 @@ def c46r_corrupt(case):
 
 
 def run_c46_repo(ctx):
-    """Repository-level phase of C46 (call from checks/c46.py after the pattern phase: `_bj.run_c46_repo(ctx)`)."""
+    """Repository-level phase of C46 (called from checks/c46.py after the pattern phase)."""
+    if ctx.replay:
+        replay_one(ctx, ctx.build_engine(ENGINE), "ignore")
+        return
     _simple_run(ctx, "RepoIgnore.tla", "ignore", ["c46r_exh_quick.cfg"], ["c46r_exh_thorough.cfg"],
                 [{"cfg": "c46r_sim.cfg", "num": ctx.q(60, 400), "depth": 16, "bindings": IGNORE_BIND, "max": ctx.q(200, 1200)}],
                 ignore_case, c46r_corrupt, ["AddAll:ok", "CommitAll:ok", "Clean:ok"],
-                ["AddAll:ok", "CommitAll:ok", "Clean:ok", "PutPat:ok", "Rename:ok"],
+                ["AddAll:ok", "CommitAll:ok", "Clean:ok", "PutPat:ok", "Modify:ok"],
                 ("repository phase: behaviours = TLC simulation of RepoIgnore.tla (create/drop/modify/rename tables, dolt_ignore rows, dolt_add('.'), "
                  "dolt_commit('-A'), dolt_reset(), dolt_clean(), dolt_clean('-x')); after EVERY step the tables and dolt_ignore rows of the HEAD, STAGED and "
                  "WORKING roots are compared with the model's"),
                 ["repository phase: verdicts come from IgnorePatterns.tla Result; pattern sets on which the code's syntactic specificity differs are not generated; "
-                 "patterns consisting only of wildcards (they match dolt_ignore itself) are not generated"])
+                 "patterns consisting only of wildcards (they match dolt_ignore itself) are not generated", "repository phase: RENAME TABLE is modelled (RepoIgnore.tla Rename) but NOT generated: dolt stages a rename as a unit decided by the NEW name (the drop of the old name follows it), which the model's name-wise rule does not express yet"])
 
 
 def c37_corrupt(case):
